@@ -273,6 +273,7 @@ var multiMsgSets = map[string][]string{
 	"C12": {"commit_eden_lp1", "uncommit_eden_lp1", "vest_eden_lp1", "cancel_vest_lp1", "stake_elys_lp1", "unstake_elys_lp1", "mc_claim_lp1"},
 	"C13": {"mc_claim_lp1", "exit_p1_10pct_lp1", "bond_lp1_L", "unbond_lp1_all", "ext_incentive_now_lp1"},
 	"C15": {"vest_eden_lp1", "cancel_vest_lp1", "claim_vesting_lp1", "vest_now_lp1", "mc_claim_lp1", "exit_p1_10pct_lp1"},
+	"C10": {"llp_open_t1_x3_stoploss", "llp_open_t1_x2_again", "llp_close_half_t1", "perp_open_long_t1_stoploss", "perp_topup_t1", "perp_close_half_t1", "perp_update_sl_t1"},
 	"C20": {"ts_spot_limitbuy_met_own1", "ts_spot_limitsell_unmet_own1", "ts_perp_long_met_own1", "ts_perp_long_unmet_own1", "ts_cancel_all_by_own1", "ts_update_spot_first_by_own1", "ts_cancel_spot_first_by_own1"},
 	"C18": {"swap_in_p1_usdc_atom_L", "join_p1_all_t1", "exit_p1_all_t1", "perp_open_long_t1", "perp_close_full_t1", "llp_open_t1_x3", "llp_close_full_t1"},
 }
